@@ -90,12 +90,12 @@ int32_t matrixSslValidatePeerCerts(ssl_t *ssl,
         ssl->err = SSL_ALERT_BAD_CERTIFICATE;
         rc = MATRIXSSL_ERROR;
     }
-    if (rc >= 0 && ssl->err == SSL_ALERT_NONE &&
-        (ssl->keys == NULL || ssl->keys->CAcerts == NULL))
+    if (ssl->keys == NULL || ssl->keys->CAcerts == NULL)
     {
         /* As in parseCertificate() for TLS 1.2 and below: a chain that is
            consistent in itself has not been authenticated when no trust
-           anchor is loaded at all. */
+           anchor is loaded at all (and this outranks any other flaw that a
+           callback might tolerate). */
         psTraceInfo("WARNING: Valid self-signed cert or cert chain but no local authentication\n");
         ssl->err = SSL_ALERT_UNKNOWN_CA;
         rc = MATRIXSSL_ERROR;
